@@ -1,5 +1,5 @@
 import sys, glob, os, random
-sys.path.insert(0,'/tmp/probe'); sys.path.insert(0,'/repo')
+sys.path.insert(0, __import__('os').path.dirname(__import__('os').path.abspath(__file__))); sys.path.insert(0,'/repo')
 import nmfu
 from absm_probe import compile_both, run as run_m, classes, Stop
 from refsem_probe import run_ref, Unsupported
